@@ -27,7 +27,8 @@ Print Assumptions C10_prog_good.
 Lemma P_ref : P = ref_prog (p_defaults P).
 Proof. apply prog_good_eq, C10_prog_good. Qed.
 
-(* FULL STATEMENT (false on the current tree, see C10_instance_iff_conforming_refuted):
+(* FULL STATEMENT (false on the current tree, see C10_instance_iff_conforming_refuted and C10_subclass_post_init_refuted;
+   there for every class C that has a type-safe layer, here already for the validating ones):
      forall check C p st st1 r, validating P C = true -> path_candidate P C p st = (st1, Ok r) ->
        user_raises (resolve_pi P C) = None ->
        snd (run_path P check C p st) = Ok r <-> all_conform (check true) (s_heap st1) (dc_fields C) r = true
@@ -69,10 +70,13 @@ Proof.
 Qed.
 Print Assumptions C10_instance_iff_all_contexts.
 
-(* the property, for every checker whose verdict does not depend on names local to the caller's frame
-   (every annotation without a forward reference to a function-local class), on all three paths *)
+(* the property on all three paths, under the exact guards that exclude the two refuted regions:
+   `validating` (the __post_init__ attribute of the class still is a new_post_init: no subclass below the type-safe
+   layer replaced it, see C10_subclass_post_init_refuted) and `ctx_irrelevant` (this path validates in the caller's
+   context only, or the checker's verdict on the annotations of THIS class does not depend on names local to the
+   caller - every class without a forward reference to a function-local class, see C10_instance_iff_conforming_refuted) *)
 Theorem C10_instance_iff_conforming_partial : forall check C p st st1 r,
-  vis_indep check ->
+  ctx_irrelevant (p_defaults P) check C (path_via p) ->
   validating P C = true ->
   path_candidate P C p st = (st1, Ok r) ->
   user_raises (resolve_pi P C) = None ->
@@ -82,10 +86,11 @@ Theorem C10_instance_iff_conforming_partial : forall check C p st st1 r,
                snd (run_path P check C p st) = Raise e).
 Proof.
   rewrite P_ref. intros check C p st st1 r Hi Hv Hc Hu.
+  change (p_defaults (ref_prog (p_defaults P))) with (p_defaults P) in Hi.
   rewrite (path_outcome _ check C p st st1 r Hv Hc). rewrite Hu. cbn [snd].
   assert (Hn : is_new (resolve_pi (ref_prog (p_defaults P)) C) = true).
   { unfold validating in Hv. destruct (nearest_deco C); [|discriminate]. now apply andb_true_iff in Hv as [_ Hv]. }
-  rewrite (validations_indep _ check C (path_via p) (s_heap st1) r Hi Hn).
+  rewrite (validations_guarded _ check C (path_via p) (s_heap st1) r Hi Hn).
   destruct (first_reject (check true) (s_heap st1) (dc_fields C) r) as [e|] eqn:E.
   - split.
     + intro H. apply first_reject_none in H. congruence.
@@ -139,6 +144,40 @@ Proof.
   eexists. eexists. split; [vm_compute; reflexivity|]. split; vm_compute; reflexivity.
 Qed.
 Print Assumptions C10_instance_iff_conforming_refuted.
+
+(* the full statement is false in a second region: a subclass of a type-safe class that defines __post_init__
+   itself (without calling super().__post_init__()) replaces the hook that carries the check - be it a plain subclass or one
+   decorated with @frozen_dataclass (type_safe off).  Its instances ARE instances of the type-safe class, yet the
+   constructor, copy_with and deep_copy_with return them with a non-conforming field; only validate_types() notices.
+   Witness replayed on the real code by harness/dc_common.py (finding C10-override). *)
+Definition o_parent : layer := mkLayer 0 (Some (mkDeco true [])) [mkField 0 0 DNone true true] None.
+Definition o_plain : layer := mkLayer 1 None [] (Some PIRet).
+Definition o_deco : layer := mkLayer 1 (Some (mkDeco false [])) [] (Some PIRet).
+Definition o_check : bool -> heap -> ann -> value -> outcome unit :=
+  fun _ _ _ v => match v with VAtom 0%Z => Ok tt | _ => Raise PTypeCheckC end.
+Theorem C10_subclass_post_init_refuted : forall sub, sub = o_plain \/ sub = o_deco ->
+  let C := [sub; o_parent] in let bad := [(0, VAtom 1)] in let st := mkSt [] [] in
+  validating P [o_parent] = true /\ validating P C = false /\
+  (forall b h a v, o_check b h a v = o_check true h a v) /\
+  snd (run_path P o_check [o_parent] (ByCtor bad) st) = Raise PTypeCheckC /\
+  exists st1 r, run_path P o_check C (ByCtor bad) st = (st1, Ok r) /\
+    all_conform (o_check true) (s_heap st1) (dc_fields C) r = false /\
+    s_journal st1 = [EPi 1] /\
+    (exists st2 r2, run_path P o_check C (ByCopy r []) st1 = (st2, Ok r2) /\
+                    all_conform (o_check true) (s_heap st2) (dc_fields C) r2 = false) /\
+    (exists st3 r3, run_path P o_check C (ByDeep r []) st1 = (st3, Ok r3) /\
+                    all_conform (o_check true) (s_heap st3) (dc_fields C) r3 = false) /\
+    snd (validate_types P o_check true C r st1) = Raise PTypeCheckC.
+Proof.
+  intros sub [->| ->]; cbv zeta;
+    (split; [vm_compute; reflexivity|]); (split; [vm_compute; reflexivity|]); (split; [reflexivity|]);
+    (split; [vm_compute; reflexivity|]);
+    eexists; eexists; (split; [vm_compute; reflexivity|]); (split; [vm_compute; reflexivity|]);
+    (split; [vm_compute; reflexivity|]);
+    (split; [eexists; eexists; split; vm_compute; reflexivity|]);
+    (split; [eexists; eexists; split; vm_compute; reflexivity|]); vm_compute; reflexivity.
+Qed.
+Print Assumptions C10_subclass_post_init_refuted.
 
 (* when dataclasses itself refuses the arguments (missing / unexpected keyword: TypeError; init=False
    field given to replace(): ValueError) that exception leaves and no instance is returned *)
@@ -215,7 +254,7 @@ Print Assumptions C10_validating_classes.
 (* the property in terms of a specification of conformance: whenever the checker accepts what must
    conform and rejects with PedanticTypeCheckException what must not (C01/C02 for Model/Checker.v) *)
 Theorem C10_against_specification : forall check (must mustnot : heap -> ann -> value -> bool) C p st st1 r,
-  vis_indep check ->
+  ctx_irrelevant (p_defaults P) check C (path_via p) ->
   (forall h a v, must h a v = true -> check true h a v = Ok tt) ->
   (forall h a v, mustnot h a v = true -> exists e, check true h a v = Raise e /\ derives e PTypeCheckC = true) ->
   chain_ok C = true -> validating P C = true ->
@@ -308,6 +347,16 @@ Example C10_example :
    snd (run_path P ex_check C (ByCtor []) st1) = Raise TypeErrorC).
 Proof. cbv zeta. repeat split; vm_compute; reflexivity. Qed.
 
+(* the context guard is strictly weaker than "the checker never looks at the caller's names": the checker of the
+   refutation witness satisfies it on the constructor path of a class with one type-safe layer *)
+Example C10_guard_example :
+  ctx_irrelevant (p_defaults P) w_check [w_layer] VCtor /\ ~ vis_indep w_check.
+Proof.
+  split.
+  - left. intros b Hb. vm_compute in Hb. destruct Hb as [<-|[]]. reflexivity.
+  - intro H. specialize (H false [] 0 (VAtom 0)). discriminate H.
+Qed.
+
 (* ... and with the real checker: field annotation `int`, values 5 and '' *)
 Definition ex_env : DataclassEval.env :=
   DataclassEval.mkEnv [] [Ann.ACls Values.CInt] [Values.VInt 5%Z; Values.VStr []] [].
@@ -319,8 +368,7 @@ Example C10_real_example :
   DataclassReal.field_verdict ex_env true [mkObj (KData 0) [] [(0, VAtom 1)]] 0 f = Some Conforms.MustNot.
 Proof. cbv zeta. repeat split; vm_compute; reflexivity. Qed.
 
-(* a subclass that defines its own __post_init__ replaces the hook: outside the statement (the class is
-   no longer validating), recorded so that the boundary is explicit *)
+(* the same bypass (C10_subclass_post_init_refuted) on the classes of C10_example *)
 Example C10_override_bypasses :
   let C := [mkLayer 2 None [] (Some PIRet); ex_parent] in
   validating P C = false /\ snd (run_path P ex_check C (ByCtor [(0, VAtom 3)]) (mkSt [] [])) = Ok 1.
